@@ -1,0 +1,12 @@
+//go:build verif
+
+package measurements
+
+// Lemma clients for /verif's gcv: ordinary Go, compiled only with the verif tag, never called.
+
+// zeroMinimumMeasurement is how the limits create their no-load RTT measurement
+// (&measurements.MinimumMeasurement{}); its contract states that the zero value satisfies the
+// type's invariant, i.e. it is the induction base for MinimumMeasurement.
+func zeroMinimumMeasurement() *MinimumMeasurement {
+	return &MinimumMeasurement{}
+}
